@@ -1,6 +1,7 @@
 // UNIT tomb — tombstone log addressing (C10): slot <-> address map, tail recovery, per-page scan, append
 #![allow(unused_imports, unused_variables, dead_code, unused_mut)]
 use vstd::prelude::*;
+use vstd::std_specs::iter::IteratorSpec;
 verus! {
 
 global size_of usize == 8;
@@ -94,6 +95,30 @@ pub proof fn lemma_slot_addr_injective(pages: int, s1: int, s2: int)
         assert(false);
     }
 }
+
+// ---- TombstoneLog::open: which recovered tombstone the tail follows: the one with the HIGHEST SEQUENCE (0 when none)
+/// `None`, typed as an element reference of `v` (start value of the loop that rule iter-reduce writes)
+pub fn verif_no_element<T>(v: &Vec<T>) -> (r: Option<&T>) ensures r is None { None }
+pub open spec fn newest(rec: Seq<(Tombstone, usize)>, i: int) -> bool {
+    0 <= i < rec.len() && forall|j: int| 0 <= j < rec.len() ==> (#[trigger] rec[j]).0.sequence <= rec[i].0.sequence
+}
+//@region foyer-storage/src/engine/block/tombstone.rs :: impl~^impl TombstoneLog$/fn open name=open_latest_offset start=/let latest_tombstone_offset = recovered/ stmts=1 rules=drop-tracing,iter-reduce,option-map
+//@head
+fn open_latest_offset(recovered: &Vec<(Tombstone, usize)>) -> (r: usize)
+    ensures
+        recovered@.len() == 0 ==> r == 0, // @label empty_log_starts_at_the_beginning
+        recovered@.len() > 0 ==> exists|i: int| 0 <= i < recovered@.len() && r == (#[trigger] recovered@[i]).1
+            && forall|j: int| 0 <= j < recovered@.len() ==> (#[trigger] recovered@[j]).0.sequence <= recovered@[i].0.sequence, // @label tail_follows_the_tombstone_with_the_highest_sequence
+//@loop 1 iter=it
+            invariant
+                it.snapshot@.remaining().len() == recovered@.len(),
+                forall|i: int| 0 <= i < recovered@.len() ==> *(#[trigger] it.snapshot@.remaining()[i]) == recovered@[i],
+                it.index@ == 0 ==> verif_best is None,
+                it.index@ > 0 ==> verif_best is Some && exists|i: int| 0 <= i < it.index@ && *verif_best.unwrap() == recovered@[i]
+                    && forall|j: int| 0 <= j < it.index@ ==> (#[trigger] recovered@[j]).0.sequence <= recovered@[i].0.sequence, // @label best_so_far_has_the_highest_sequence_seen
+//@tail
+    latest_tombstone_offset
+//@end
 
 // ---- TombstoneLog::open: tail slot from the global byte offset of the newest tombstone
 //@region foyer-storage/src/engine/block/tombstone.rs :: impl~^impl TombstoneLog$/fn open name=open_tail_slot start=/let latest_tombstone_page = / stmts=2 sub=@Self::SLOTS_PER_PAGE@TombstoneLog::SLOTS_PER_PAGE@
